@@ -165,8 +165,8 @@ class PolyhedralProjection:
         cache_key = (tuple(A), tuple(B), tuple(C))
         
         if _verif.ENABLED:
-            _verif.emit({'ev': 'cache', 'cache': 'constants', 'key': cache_key,
-                         'hit': cache_key in self._inverse_triangle_cache})
+            _verif.emit({'ev': 'cache', 'cache': 'constants', 'key': (tuple(A), tuple(B), tuple(C)),
+                         'slot': cache_key, 'hit': cache_key in self._inverse_triangle_cache})
 
         if cache_key not in self._inverse_triangle_cache:
             triangle_shape = SphericalTriangleShape(spherical_triangle)
